@@ -52,23 +52,26 @@ def case(kind, suite, sk, msg):
 
 
 def task_outputs(a, env):
-    r = R("SkToPk/Sign/PopProve:%s" % a["suite"])
-    suite = a["suite"]
+    """one key, all suites interleaved per message (one process, one call history)"""
+    r = R("SkToPk/Sign/PopProve")
     msgs = msg_domain()
     for skh in a["sks"]:
         sk = int(skh, 16)
-        todo = [("pk", None)] + [("sign", mi) for mi in a["mis"]]
-        if suite == "pop":
-            todo.append(("pop", None))
-        for kind, mi in todo:
+        todo = [("pk", s, None) for s in a["suites"]]
+        for mi in a["mis"]:
+            todo += [("sign", s, mi) for s in a["suites"]]
+        if "pop" in a["suites"]:
+            todo.append(("pop", "pop", None))
+        todo += [("sign", s, a["mis"][0]) for s in reversed(a["suites"])]
+        for kind, suite, mi in todo:
             exp, got = case(kind, suite, sk, msgs[mi] if mi is not None else None)
             r.ev += 1
-            r.dk.add((kind, sk, mi))
+            r.dk.add((kind, suite, sk, mi))
             if exp != got:
                 r.viol("C09:%s:%s" % (suite, {"pk": "SkToPk", "sign": "Sign", "pop": "PopProve"}[kind]),
                        ME + ":replay", {"kind": kind, "suite": suite, "sk": skh, "mi": mi}, exp, got)
     if a.get("sample"):
-        r.sample({"suite": suite, "sk": a["sks"][0], "messages": [m[:8].hex() + ".." for m in msgs[:4]]})
+        r.sample({"suites": a["suites"], "sk": a["sks"][0], "messages": [m[:8].hex() + ".." for m in msgs[:4]]})
     return r
 
 
@@ -145,10 +148,10 @@ def run(ctx):
     mis = list(range(len(msgs)))
     ctx.bounds = {"secret_keys": len(sks), "messages": len(msgs), "suites": 3, "aggregate_lists": len(agg_lists(ctx.env))}
     tasks = []
-    for suite in ("basic", "aug", "pop"):
-        for i, sk in enumerate(sks):
-            m = mis if (not ctx.quick or i < 5) else [0, 2, 7]
-            tasks.append(("outputs", {"suite": suite, "sks": [hex(sk)], "mis": m, "sample": i == 0}))
+    for i, sk in enumerate(sks):
+        m = mis if (not ctx.quick or i < 5) else [0, 2, 7]
+        for ch in ([m[:5], m[5:]] if len(m) > 5 else [m]):
+            tasks.append(("outputs", {"suites": ["basic", "aug", "pop"], "sks": [hex(sk)], "mis": ch, "sample": i == 0}))
     n = len(agg_lists(ctx.env))
     for i in range(n):
         tasks.append(("agg", {"idx": [i]}))
